@@ -66,6 +66,7 @@ type stubChannel struct {
 	Clients       []stubClient `json:"clients"`
 	Paused        bool         `json:"paused"`
 	E2E           interface{}  `json:"e2e_processing_latency,omitempty"`
+	e2eCount      int64
 }
 type stubTopic struct {
 	TopicName    string        `json:"topic_name"`
@@ -103,6 +104,7 @@ const (
 	upMalformed
 	upInconsistent // lookupd /nodes: topics and tombstones of different lengths
 	upEmptyBody
+	upStallBody // answers the status line, headers and the beginning of the body, then nothing more (connection stays open)
 )
 
 type aWorld struct {
@@ -114,6 +116,7 @@ type aWorld struct {
 	mu    sync.Mutex
 	log   []stubReq
 	curLookupPath string // which lookupd endpoint the view under test uses
+	stalled       []net.Conn
 }
 
 func genACfg(rc *RunCtx) ACfg {
@@ -146,7 +149,7 @@ func genAOps(rc *RunCtx, c ACfg) []Op {
 		case 1: // read view compared with the reference aggregation
 			add(Op{Kind: "view", A: int64(r.Intn(6)), B: int64(r.Intn(8)), C: int64(r.Intn(6)), D: int64(r.Intn(10))})
 		case 2: // upstream failure mode change
-			add(Op{Kind: "upmode", A: int64(r.Intn(8)), B: int64(r.Pick(upOK, upOK, upRefuse, upBlackhole, upReset, up500, upMalformed, upInconsistent, upEmptyBody))})
+			add(Op{Kind: "upmode", A: int64(r.Intn(8)), B: int64(r.Pick(upOK, upOK, upRefuse, upBlackhole, upReset, up500, upMalformed, upInconsistent, upEmptyBody, upStallBody))})
 		case 3: // /config from some source address
 			add(Op{Kind: "config", A: int64(r.Intn(8)), B: int64(r.Intn(3)), C: int64(r.Pick(0, 0, 1, 2, 3, 4))})
 		}
@@ -157,8 +160,26 @@ func genAOps(rc *RunCtx, c ACfg) []Op {
 var aTopics = []string{"orders", "clicks", "audit#ephemeral", "t.x_y-z"}
 var aChans = []string{"archive", "metrics", "tail#ephemeral"}
 
+// stubE2E: what an nsqd started with --e2e-processing-latency-percentile reports (an idle window has count 0).
+func stubE2E(er *PRNG, host, topic, channel string) (interface{}, int64) {
+	if !er.Chance(1, 2) {
+		return nil, 0
+	}
+	count := int64(er.Pick(0, 0, 7, 1000))
+	var ps []map[string]interface{}
+	for _, q := range []float64{0.99, 0.95} {
+		v := int64(0)
+		if count > 0 {
+			v = int64(er.Range(1000, 90000000))
+		}
+		ps = append(ps, map[string]interface{}{"quantile": q, "value": v})
+	}
+	return map[string]interface{}{"count": count, "percentiles": ps, "topic": topic, "channel": channel, "host": host}, count
+}
+
 func (w *aWorld) genCluster() {
 	r := NewPRNG(w.cfg.Seed2)
+	er := NewPRNG(w.cfg.Seed2 ^ 0xe2e) // own stream: the rest of the cluster of a seed is unchanged
 	for i := 0; i < w.cfg.NNsqd; i++ {
 		n := &stubNode{kind: "nsqd", idx: i, host: "127.0.0.1", tcp: 6000 + i, httpP: 4151}
 		n.addr = fmt.Sprintf("%s:%d", n.host, n.httpP)
@@ -188,8 +209,10 @@ func (w *aWorld) genCluster() {
 					sc.Clients = append(sc.Clients, cl)
 				}
 				sc.ClientCount = int64(len(sc.Clients))
+				sc.E2E, sc.e2eCount = stubE2E(er, fmt.Sprintf("127.0.0.1:%d", 6000+i), t, c)
 				st.Channels = append(st.Channels, sc)
 			}
+			st.E2E, _ = stubE2E(er, fmt.Sprintf("127.0.0.1:%d", 6000+i), t, "")
 			n.topics = append(n.topics, st)
 		}
 		w.nodes = append(w.nodes, n)
@@ -286,6 +309,15 @@ func (w *aWorld) serve(n *stubNode, rw http.ResponseWriter, req *http.Request) {
 			} else {
 				c.Close()
 			}
+		}
+		return
+	case upStallBody:
+		if hj, ok := rw.(http.Hijacker); ok {
+			c, _, _ := hj.Hijack()
+			c.Write([]byte("HTTP/1.1 200 OK\r\nContent-Type: application/json\r\nContent-Length: 1000\r\n\r\n{\"topics\":["))
+			w.mu.Lock()
+			w.stalled = append(w.stalled, c) // kept open; closed at the end of the run
+			w.mu.Unlock()
 		}
 		return
 	case upReset:
@@ -498,6 +530,11 @@ func adminWorld(rc *RunCtx) {
 	go a.Main()
 	w.http = "127.0.0.1:4171"
 	rc.Defer(func() {
+		w.mu.Lock()
+		for _, c := range w.stalled {
+			c.Close()
+		}
+		w.mu.Unlock()
 		a.Exit()
 		for _, n := range w.nodes {
 			n.ln.Close()
@@ -564,7 +601,7 @@ func (w *aWorld) setMode(n *stubNode, mode int) {
 		}
 	}
 	if mode != upOK {
-		w.rc.Fault([]string{"", "upstream_refuse", "upstream_blackhole", "upstream_reset_mid_body", "upstream_500", "upstream_malformed_json", "upstream_inconsistent_arrays", "upstream_empty_body"}[mode])
+		w.rc.Fault([]string{"", "upstream_refuse", "upstream_blackhole", "upstream_reset_mid_body", "upstream_500", "upstream_malformed_json", "upstream_inconsistent_arrays", "upstream_empty_body", "upstream_stalls_mid_body"}[mode])
 	}
 	w.rc.Logf("%s%d mode %d", n.kind, n.idx, mode)
 }
@@ -1089,6 +1126,7 @@ func (w *aWorld) opView(op Op) {
 		tp := w.topicProducers(t, lookupMode)
 		srcOK, srcBad := 0, 0
 		var sum [7]int64
+		var e2eSum int64
 		clients := map[string]bool{}
 		found := false
 		for _, n := range tp {
@@ -1113,6 +1151,7 @@ func (w *aWorld) opView(op Op) {
 					sum[4] += c.RequeueCount
 					sum[5] += c.TimeoutCount
 					sum[6] += c.ClientCount
+					e2eSum += c.e2eCount
 					for _, cl := range c.Clients {
 						clients[cl.ClientID] = true
 					}
@@ -1144,6 +1183,9 @@ func (w *aWorld) opView(op Op) {
 				ClientID string `json:"client_id"`
 			} `json:"clients"`
 			Message string `json:"message"`
+			E2E     *struct {
+				Count int64 `json:"count"`
+			} `json:"e2e_processing_latency"`
 		}
 		lookupFail := lookupMode && badL > 0
 		if !w.viewStatus("/api/topics/"+t+"/"+ch, resp, srcOK, srcBad+btoi(lookupFail), &raw, func() string { return raw.Message }) {
@@ -1160,6 +1202,9 @@ func (w *aWorld) opView(op Op) {
 		}
 		if got != sum || setOf(keysOf(gc)) != setOf(keysOf(clients)) {
 			w.violate("C18", "channel-view", "/api/topics/%s/%s: counters %v clients [%s]; sum over healthy producers %v clients [%s]", t, ch, got, setOf(keysOf(gc)), sum, setOf(keysOf(clients)))
+		}
+		if raw.E2E != nil && raw.E2E.Count != e2eSum {
+			w.violate("C18", "channel-view", "/api/topics/%s/%s: end-to-end latency sample count %d, sum over healthy producers %d", t, ch, raw.E2E.Count, e2eSum)
 		}
 		rc.Probe("channel_views_checked")
 	case 4: // /api/nodes
